@@ -276,6 +276,15 @@ func (c *Ctx) checkLoopTables(rule string, rels ...string) {
 			fmt.Sprintf("%d table(s) created before the loop (at %v) are updated and consulted inside it without being emptied at the start of each iteration (%d listed for this function): what an earlier iteration counted is still there for the later ones", len(byFn[n]), byFn[n], al.n))
 	}
 	L.OK(rule, "scope", fmt.Sprintf("packages %v", rels), "-", fmt.Sprintf("%d loops examined", nLoops))
+	if cp := c.Controls(); cp != nil {
+		n := 0
+		for _, fn := range cp.SrcFuncs() {
+			if fn.Name() == "StaleColumnTable" {
+				n += len(staleLoopTables(fn))
+			}
+		}
+		L.ControlMustFire(rule, n > 0, "controls.StaleColumnTable counts into a table created before the column loop and never emptied")
+	}
 }
 
 // ownIndexOf: v is the induction variable of lp (header φ stepped by a constant) or φ+1 of the
